@@ -1,6 +1,6 @@
 (* C09 — lemmas.  Final statements are in Property.v. *)
 From Coq Require Import List ZArith Bool Lia.
-From Verif Require Import C09.Model.
+From Verif Require Import C09.Model C09.Spec.
 Import ListNotations.
 Open Scope Z_scope.
 
@@ -138,3 +138,232 @@ Proof.
   induction m as [|[k0 s0] m IH]; cbn; [reflexivity|].
   destruct (key_eqb k k0); [reflexivity | exact IH].
 Qed.
+
+(* ================================================================== *)
+(** * C. One limiter state                                              *)
+
+Lemma count_app p a b : count p (a ++ b) = count p a + count p b.
+Proof. induction a as [|e a IH]; cbn [app count]; [reflexivity | rewrite IH; ring]. Qed.
+
+Lemma count_nonneg p tr : 0 <= count p tr.
+Proof.
+  induction tr as [|e r IH]; cbn [count]; [lia|].
+  destruct (is_pass e && p (s_now e)); lia.
+Qed.
+
+Lemma count_zero p tr :
+  (forall e, In e tr -> is_pass e = true -> p (s_now e) = false) -> count p tr = 0.
+Proof.
+  induction tr as [|e r IH]; intros H; cbn [count]; [reflexivity|].
+  rewrite IH by (intros e' Hi; apply H; right; exact Hi).
+  destruct (is_pass e) eqn:P; cbn [andb]; [|reflexivity].
+  rewrite (H e (or_introl eq_refl) P). reflexivity.
+Qed.
+
+Lemma count_le_1 p e : 0 <= count p [e] <= 1.
+Proof. cbn [count]. destruct (is_pass e && p (s_now e)); lia. Qed.
+
+Lemma count_nonpass p e : is_pass e = false -> count p [e] = 0.
+Proof. intros H. cbn [count]. rewrite H. reflexivity. Qed.
+
+(* the last request that proceeded inside p, if there is one *)
+Lemma count_pos_last p tr :
+  0 < count p tr ->
+  exists pre e post, tr = pre ++ e :: post /\ is_pass e = true /\ p (s_now e) = true /\
+                     count p post = 0.
+Proof.
+  induction tr as [|x r IH] using rev_ind; [cbn; lia|].
+  rewrite count_app. intros H.
+  destruct (is_pass x && p (s_now x)) eqn:E.
+  - apply andb_prop in E. destruct E as [E1 E2].
+    exists r, x, []. repeat split; assumption || reflexivity.
+  - assert (Hx : count p [x] = 0) by (cbn [count]; rewrite E; reflexivity).
+    rewrite Hx in H. destruct IH as (pre & e & post & -> & P & Q & Z0); [lia|].
+    exists pre, e, (post ++ [x]). rewrite <- app_assoc. cbn [app].
+    repeat split; try assumption. rewrite count_app, Z0, Hx. reflexivity.
+Qed.
+
+Lemma quot_gt W now : 0 < W -> now < Z.quot now W * W + W.
+Proof.
+  intros HW. pose proof (Z.quot_rem' now W) as E.
+  destruct (Z.le_ge_cases 0 now) as [Hn|Hn].
+  - pose proof (Z.rem_bound_pos now W Hn HW). nia.
+  - pose proof (Z.rem_bound_neg_pos now W ltac:(lia) HW). nia.
+Qed.
+
+Lemma quot_le W now : 0 < W -> 0 <= now -> Z.quot now W * W <= now.
+Proof.
+  intros HW Hn. pose proof (Z.quot_rem' now W) as E.
+  pose proof (Z.rem_bound_pos now W Hn HW). nia.
+Qed.
+
+Lemma ensure_cases now s :
+  (wend s < now /\ cnt (ensure now s) = 0 /   wend (ensure now s) = Z.quot now (wW (swd s)) * wW (swd s) + wW (swd s) /   swd (ensure now s) = swd s)
+  \/ (now <= wend s /\ ensure now s = s).
+Proof.
+  unfold ensure. destruct (wend s <? now) eqn:E.
+  - left. apply Z.ltb_lt in E. cbn. repeat split; try reflexivity. exact E.
+  - right. apply Z.ltb_ge in E. split; [exact E | reflexivity].
+Qed.
+
+Lemma try_inc_cases now wd s :
+  wW wd <> 0 ->
+  let s1 := ensure now (with_wd s wd) in
+  let lim := limit_at now wd s in
+  (lim <= cnt s1 /\ try_inc now wd s = (s1, Block))
+  \/ (cnt s1 < lim /      try_inc now wd s =
+      ({| cnt := cnt s1 + 1; spill := spill s1; wend := wend s1; swd := wd |}, Proceed)).
+Proof.
+  intros HW. unfold try_inc, limit_at.
+  replace (wW wd =? 0) with false by (symmetry; apply Z.eqb_neq; exact HW).
+  cbn zeta.
+  destruct (scaled_quota _ _ <=? cnt _) eqn:E.
+  - left. apply Z.leb_le in E. split; [exact E | reflexivity].
+  - right. apply Z.leb_gt in E. split; [exact E | reflexivity].
+Qed.
+
+Section SingleBound.
+  Variable W B : Z.
+  Hypothesis HW : 0 < W.
+
+  Record InvS (s : st) (pre : list sentry) (lo : Z) : Prop := {
+    i_al : wend s = B \/ (W | wend s);
+    i_lo : forall e, In e pre -> s_now e <= lo;
+    i_pw : forall e, In e pre -> is_pass e = true -> s_now e <= wend s;
+    i_ct : forall k, good_window W B k -> lo <= (k + 1) * W ->
+                     count (in_right W k) pre <= cnt s
+  }.
+
+  Definition Inv (o : option st) (pre : list sentry) (lo : Z) : Prop :=
+    match o with
+    | None => pre = []
+    | Some s => wW (swd s) = W /\ InvS s pre lo
+    end.
+
+  Lemma InvS_init lo : InvS init [] lo.
+  Proof.
+    constructor; cbn.
+    - right. exists 0. reflexivity.
+    - intros e [].
+    - intros e [].
+    - intros; lia.
+  Qed.
+
+  Lemma InvS_with_wd s wd pre lo : InvS s pre lo -> InvS (with_wd s wd) pre lo.
+  Proof. intros [A L P C]. constructor; cbn; assumption. Qed.
+
+  (* no grid window that matters straddles the end of the stored window *)
+  Lemma no_straddle we k t now :
+    (we = B \/ (W | we)) -> good_window W B k ->
+    in_right W k t = true -> t <= we -> we < now -> now <= (k + 1) * W -> False.
+  Proof.
+    intros A G I T1 T2 T3. unfold in_right in I. apply andb_prop in I.
+    destruct I as [I1 I2]. apply Z.ltb_lt in I1. apply Z.leb_le in I2.
+    assert (D : (W | we) \/ we <= k * W).
+    { destruct A as [->|A]; [exact G | left; exact A]. }
+    destruct D as [[j ->]|D]; nia.
+  Qed.
+
+  Lemma ensure_InvS s pre lo now :
+    wW (swd s) = W -> InvS s pre lo -> lo <= now ->
+    InvS (ensure now s) pre now /\ now <= wend (ensure now s) /\
+    wW (swd (ensure now s)) = W.
+  Proof.
+    intros HS [A L P C] Hlo.
+    destruct (ensure_cases now s) as [(Hlt & Hc & Hw & Hd)|(Hle & ->)].
+    - rewrite HS in Hw. pose proof (quot_gt W now HW) as Hq.
+      split; [|split; [lia | rewrite Hd; exact HS]].
+      constructor.
+      + right. rewrite Hw. exists (Z.quot now W + 1). ring.
+      + intros e Hi. specialize (L e Hi). lia.
+      + intros e Hi Hp. specialize (P e Hi Hp). lia.
+      + intros k G Hk. rewrite Hc.
+        rewrite count_zero; [lia|].
+        intros e Hi Hp. destruct (in_right W k (s_now e)) eqn:I; [|reflexivity].
+        exfalso. exact (no_straddle (wend s) k (s_now e) now A G I (P e Hi Hp) Hlt Hk).
+    - split; [|split; [exact Hle | exact HS]].
+      constructor; try assumption.
+      + intros e Hi. specialize (L e Hi). lia.
+      + intros k G Hk. apply C; [exact G | lia].
+  Qed.
+
+  Lemma inc_step s pre lo now wd s' v :
+    wW wd = W -> InvS s pre lo -> lo <= now -> try_inc now wd s = (s', v) ->
+    let e := {| s_now := now; s_verdict := v; s_lim := limit_at now wd s |} in
+    wW (swd s') = W /\ InvS s' (pre ++ [e]) now /\
+    (v = Proceed -> forall k, good_window W B k -> in_right W k now = true ->
+                    count (in_right W k) (pre ++ [e]) <= limit_at now wd s).
+  Proof.
+    intros Hwd HI Hlo HT.
+    assert (Hnz : wW wd <> 0) by lia.
+    pose proof (ensure_InvS (with_wd s wd) pre lo now Hwd (InvS_with_wd s wd pre lo HI) Hlo)
+      as (HI1 & Hnow & HS1).
+    destruct (try_inc_cases now wd s Hnz) as [(Hc & E)|(Hc & E)];
+      rewrite E in HT; inversion HT; subst s' v; clear HT; cbn zeta.
+    - (* Block *)
+      split; [exact HS1|]. split; [|discriminate].
+      destruct HI1 as [A L P C]. constructor.
+      + exact A.
+      + intros e Hi. apply in_app_or in Hi. destruct Hi as [Hi|[<-|[]]]; [apply L; exact Hi | cbn; lia].
+      + intros e Hi Hp. apply in_app_or in Hi. destruct Hi as [Hi|[<-|[]]]; [apply P; assumption | discriminate].
+      + intros k G Hk. rewrite count_app, count_nonpass by reflexivity.
+        specialize (C k G Hk). lia.
+    - (* Proceed *)
+      split; [exact Hwd|].
+      set (s1 := ensure now (with_wd s wd)) in *.
+      set (e := {| s_now := now; s_verdict := Proceed; s_lim := limit_at now wd s |}).
+      destruct HI1 as [A L P C].
+      assert (HI' : InvS {| cnt := cnt s1 + 1; spill := spill s1; wend := wend s1; swd := wd |}
+                         (pre ++ [e]) now).
+      { constructor; cbn [cnt wend].
+        + exact A.
+        + intros x Hi. apply in_app_or in Hi. destruct Hi as [Hi|[<-|[]]]; [apply L; exact Hi | cbn; lia].
+        + intros x Hi Hp. apply in_app_or in Hi. destruct Hi as [Hi|[<-|[]]]; [apply P; assumption | cbn; exact Hnow].
+        + intros k G Hk. rewrite count_app. specialize (C k G Hk).
+          pose proof (count_le_1 (in_right W k) e). lia. }
+      split; [exact HI'|].
+      intros _ k G I. destruct HI' as [_ _ _ C'].
+      assert (Hk : now <= (k + 1) * W).
+      { unfold in_right in I. apply andb_prop in I. destruct I as [_ I]. apply Z.leb_le in I. exact I. }
+      specialize (C' k G Hk). cbn [cnt] in C'. lia.
+  Qed.
+
+  Lemma single_bound h : forall o pre lo,
+    Inv o pre lo -> const_window W h -> mono_from lo (map sev_now h) ->
+    forall mid e post k, run_single o h = mid ++ e :: post -> is_pass e = true ->
+      good_window W B k -> in_right W k (s_now e) = true ->
+      count (in_right W k) (pre ++ mid ++ [e]) <= s_lim e.
+  Proof.
+    induction h as [|ev r IH]; intros o pre lo HI HC HM mid e post k HR HP G I.
+    { cbn in HR. destruct mid; discriminate. }
+    inversion HC as [|? ? Hev HCr]; subst. cbn [map mono_from] in HM. destruct HM as [Hlo HMr].
+    destruct ev as [now wd|now]; cbn [sev_now] in *.
+    - (* a request *)
+      cbn [run_single step_single] in HR.
+      destruct (try_inc now wd (or_init o)) as [s' v] eqn:ET. cbn [app] in HR.
+      assert (HIs : InvS (or_init o) pre lo).
+      { destruct o as [s|]; cbn [Inv or_init] in *; [exact (proj2 HI) | subst pre; apply InvS_init]. }
+      pose proof (inc_step (or_init o) pre lo now wd s' v Hev HIs Hlo ET) as (HS' & HI' & Hb).
+      destruct mid as [|x mid]; cbn [app] in HR; inversion HR; subst.
+      + cbn [app]. cbn [s_now s_lim] in *. apply Hb; [|exact G|exact I].
+        unfold is_pass in HP. cbn [s_verdict] in HP. destruct v; try discriminate. reflexivity.
+      + replace (pre ++ (_ :: mid) ++ [e]) with ((pre ++ [{| s_now := now; s_verdict := v;
+                 s_lim := match v with Panic => 0 | _ => limit_at now wd (or_init o) end |}]) ++ mid ++ [e])
+          by (rewrite <- app_assoc; reflexivity).
+        assert (Hv : match v with Panic => 0 | _ => limit_at now wd (or_init o) end
+                     = limit_at now wd (or_init o)).
+        { destruct v; try reflexivity. exfalso.
+          destruct (try_inc_cases now wd (or_init o) ltac:(lia)) as [(_ & E)|(_ & E)];
+            rewrite E in ET; discriminate. }
+        rewrite Hv in *.
+        eapply (IH (Some s') _ now); try eassumption.
+        cbn [Inv]. split; assumption.
+    - (* Counters() *)
+      cbn [run_single step_single app] in HR.
+      eapply (IH (option_map (peek now) o) pre now); try eassumption.
+      destruct o as [s|]; cbn [Inv option_map] in *; [|exact HI].
+      destruct HI as [HS HI]. unfold peek.
+      replace (wW (swd s) =? 0) with false by (symmetry; apply Z.eqb_neq; lia).
+      pose proof (ensure_InvS s pre lo now HS HI Hlo) as (H1 & _ & H3). split; assumption.
+  Qed.
+End SingleBound.
